@@ -17,6 +17,8 @@
 
 #include <poll.h>
 #include <sys/mman.h>
+#include <sys/stat.h>
+#include "vctl.h"
 #include <signal.h>
 
 enum mode { M_NB, M_BLK, M_MIXS, M_MIXR, M_N };
@@ -35,6 +37,7 @@ struct tcase {
     bool plan_setup;           /* plan active during establishment too */
     bool odd_sizes;            /* include 0, max+1, huge */
     int eintr_at;              /* C03: inject EINTR at the n-th blocking poll of the sender (0 off) */
+    bool ctl_disturb;          /* C03: control interface on; a control client connects while the blocking sender waits and its accept4 fails (EMFILE) */
     bool real_signal;          /* C03: deliver a real SIGUSR1 to the blocked sender */
     bool volume;               /* C17: one long-haul connection moving more than 2^31 bytes */
 };
@@ -354,6 +357,7 @@ static void gen_case(struct tcase *c, long idx)
         if (vrnd_p(&r, 75)) { c->eintr_at = 1 + (int)vrnd_n(&r, 10); if (c->plan_class == 0 || c->plan_class == 1) c->plan_class = 2 + (int)vrnd_n(&r, 3); }
         else c->real_signal = true;
     }
+    if (prop == P_C03 && (c->mode == M_BLK || c->mode == M_MIXS) && !c->eintr_at && !c->real_signal && vrnd_p(&r, 60)) c->ctl_disturb = true;
 }
 
 static void case_json(const struct tcase *c, char *buf, size_t cap)
@@ -486,6 +490,8 @@ static void one_case(long idx, void *arg)
     setup_plan(&A.plan, &c, &r); setup_plan(&B.plan, &c, &r);
     memset(cm, 0, sizeof cm);
     char why[256] = "";
+    static char ctl_dir3[700];
+    if (c.ctl_disturb) { snprintf(ctl_dir3, sizeof ctl_dir3, "%s/ctl3-%d", va.dir, (int)getpid()); mkdir(ctl_dir3, 0700); setenv("XCM_CTL", ctl_dir3, 1); vs_ledger_reset(); }
     struct vpair_opts po = { .plan_during_setup = c.plan_setup, .user_timeout = 60 };
     if (veng_pair(c.tp, &A, &B, &S, &po, why, sizeof why) < 0) {
         vobs("setup_failed", 1);
@@ -556,6 +562,9 @@ static void one_case(long idx, void *arg)
         if (blk_sender && vx_set_blocking(sd[0].e, true) < 0) ok = false;
         if (blk_receiver && vx_set_blocking(sd[1].e, true) < 0) ok = false;
         if (c.eintr_at) sd[0].e->plan.eintr_at = (int)sd[0].e->plan.n_blocking_polls + c.eintr_at;
+        /* the first accept4 made inside one of the sender's calls (it can only be the control interface's) fails for lack of descriptors */
+        if (c.ctl_disturb) { struct vs_plan *pl = &sd[0].e->plan; pl->fail_errno = EMFILE; pl->fail_call = VS_ACCEPT; pl->fail_at = (int)pl->n_call[VS_ACCEPT] + 1; pl->fail_fired = false; }
+        int ctl_fds[8]; int n_ctl = 0; bool ctl_connected = false;
         ts = (struct thr){ .s = &sd[0], .c = &c, .seed = vmix(c.sub_seed ^ 77), .maxmsg = maxmsg, .close_at_end = true };
         tr = (struct thr){ .s = &sd[1], .c = &c, .seed = vmix(c.sub_seed ^ 78), .maxmsg = maxmsg };
         if (ok && blk_sender) pthread_create(&ts.th, NULL, sender_thread, &ts);
@@ -577,6 +586,7 @@ static void one_case(long idx, void *arg)
                 if (vrnd_p(&r, 15)) { struct pollfd none; vs_real_poll(&none, 0, 1 + (int)vrnd_n(&r, 3)); }   /* stall: back-pressure on the sender */
                 else for (int k = 0; k < 8; k++) if (do_recv(&sd[1], &c, &r) <= 0) break;
             }
+            if (c.ctl_disturb && !ctl_connected && sd[0].e->plan.n_blocking_polls > 1) { n_ctl = vctl_connect_all(ctl_dir3, ctl_fds, NULL, 8); ctl_connected = true; vobs("control_clients_connected_to_a_waiting_sender", 1); }
             if (c.real_signal && blk_sender && sig_sent < 6 && sd[0].e->plan.n_blocking_polls > (sig_sent + 1) * 2) { pthread_kill(ts.th, SIGUSR1); sig_sent++; vobs("real_signals_sent", 1); }
             if (blk_sender && blk_receiver) { struct pollfd none; vs_real_poll(&none, 0, 1); }
         }
@@ -593,6 +603,8 @@ static void one_case(long idx, void *arg)
         if (sd[0].e->conn_error_seen) complete_expected[0] = false;
         if (sd[1].e->term != 1) { complete_expected[0] = false; vobs("close_seen_as_error", 1); } else vobs("close_seen_as_zero", 1);
         if (sd[0].e->plan.eintr_fired) vobs("eintr_injected", 1);
+        if (c.ctl_disturb && sd[0].e->plan.fail_fired) vobs("control_accept_failures_during_blocking_send", 1);
+        for (int i = 0; i < n_ctl; i++) close(ctl_fds[i]);
     }
 
     /* ---- verdicts ---- */
